@@ -49,6 +49,7 @@ type opInfo struct {
 	sub    bool
 	termBy string
 	done   string
+	exec   bool // an execution was started for this incarnation of the id
 }
 
 type verdict struct {
@@ -256,6 +257,9 @@ func accept(p proto, log []ev, panicMsg string) *verdict {
 			if e.K == "xexec" {
 				what = "execution started"
 				v.feat("execution_started")
+				if o := ops[e.ID]; o != nil {
+					o.exec = true
+				}
 				if reuse != nil && reuse.id == e.ID && reuse.msg == e.Msg {
 					reuse = nil // the re-used id was started as a new operation
 					v.feat("terminated_id_reused_and_started")
@@ -388,9 +392,21 @@ func accept(p proto, log []ev, panicMsg string) *verdict {
 				sort.Strings(ids)
 				for _, id := range ids {
 					o := ops[id]
-					if o.st == opActive && !o.sub && (o.done == "ok" || o.done == "err") {
+					if o.st != opActive || o.sub {
+						continue
+					}
+					switch {
+					case o.done == "ok" || o.done == "err":
 						add(i, clTerminal, "no terminal message after the execution finished", "execution result "+o.done, "missing terminal",
 							fmt.Sprintf("operation %q finished (%s) but neither complete nor error was written", id, o.done))
+					case !o.exec:
+						// accepted by the server (no close, no duplicate, connection acknowledged)
+						// but neither executed nor answered: the client waits for ever and the id
+						// is never released
+						add(i, clTerminal, "no terminal message for an accepted operation that was never executed", "execution never started", "never executed",
+							fmt.Sprintf("the subscribe/start for id %q was accepted (connection acknowledged, id free) but no execution was started and neither error nor complete was written", id))
+					default:
+						v.nj("active_operation_without_result_at_the_end")
 					}
 				}
 			}
